@@ -1,17 +1,18 @@
+\* no signer faults; two targets, a head change between the messages and the aggregation
 SPECIFICATION Spec
 CONSTANTS
   SlotsPerEpoch = 2
   EpochsPerPeriod = 2
-  Forks = {0, 1, 2}
-  Nows = {0, 1, 2, 3, 4, 5, 6, 7, 8, 9, 10, 11}
-  ScheduleEpochs = {0, 2, 4}
-  Members = {1}
-  IndexSets = {{0}}
+  Forks = {0}
+  Nows = {4}
+  ScheduleEpochs = {2}
+  Members = {1, 2}
+  IndexSets = {{0}, {1, 5}}
   Sizes = {8}
   SubnetCounts = {4}
-  Targets = {2}
-  Roots = {1}
-  HVals = {0}
+  Targets = {1, 2}
+  Roots = {1, 2}
+  HVals = {0, 1}
   HMod = 2
   MaxSched = 1
   FaultKinds = {}
